@@ -530,6 +530,11 @@ class ExprMixin:
             return [(st, Val(("boundmethod",), (base, attr)))]
         if k == "cls":
             return self.lib.class_attr(base.conc, attr, st, node)
+        if k == "carray" and attr == "_type_":
+            # element C type of a ctypes array value: only its size is modelled (1, 2, 4 or 8), not its signedness
+            sz = z3.Int(fresh_name("esize"))
+            st.assume(z3.Or(sz == 1, sz == 2, sz == 4, sz == 8))
+            return [(st, Val(("elemctype",), sz))]
         if k in ("symcls", "cls") and attr in ("__name__", "__qualname__"):
             return [(st, self.fresh(STR, "clsname") if k == "symcls" else self.const_val(base.conc))]
         if k == "symcls" and attr in ("from_buffer", "from_buffer_copy"):
